@@ -76,13 +76,7 @@ def run(prog: Program, rep: Report, tier: str):
     # every constructor argument becomes a leaf through arraylike_to_array: a plain jnp.asarray gives committed (strongly
     # typed) arrays, which is what tree_serialise_leaves / tree_deserialise_leaves restore; a weakly typed leaf (a Python
     # float passed through) promotes differently after the round trip
-    from .conform import conform_function
-    rep.rule("C14.cast", "utils.arraylike_to_array returns jnp.asarray(arr, **kwargs) of an ArrayLike (TypeError otherwise): "
-                         "leaves are strongly typed arrays whatever Python numbers the constructors were given", minimum=1)
-    conform_function(prog, rep, "C14.cast", "flowjax.utils.arraylike_to_array", ["arr", "err_name"],
-                     "def arraylike_to_array(arr, err_name='input', **kwargs):\n"
-                     "    if not isinstance(arr, ArrayLike):\n        raise TypeError('not arraylike')\n"
-                     "    return jnp.asarray(arr, **kwargs)\n", "array conversion", guards=False)
+    rule_cast(prog, rep, "C14.cast")
     # a field annotated as Python ints / tuples is used as such (shapes, split points, axes): stored as a jax array it
     # is a traced leaf under jit and the Python-level use fails, while the eager call works
     from .leaves import rule_static_fields
@@ -98,6 +92,18 @@ def run(prog: Program, rep: Report, tier: str):
     if tier == "thorough":
         from ..audit import audit_generic
         audit_generic(prog, rep, "C14")
+
+
+def rule_cast(prog, rep, R):
+    """utils.arraylike_to_array is the one place where inputs and constructor arguments become arrays of the requested
+    dtype: it must hand its keywords (dtype=float at the entry points) to jnp.asarray."""
+    from .conform import conform_function
+    rep.rule(R, "utils.arraylike_to_array returns jnp.asarray(arr, **kwargs) of an ArrayLike (TypeError otherwise): "
+                         "leaves are strongly typed arrays whatever Python numbers the constructors were given", minimum=1)
+    conform_function(prog, rep, R, "flowjax.utils.arraylike_to_array", ["arr", "err_name"],
+                     "def arraylike_to_array(arr, err_name='input', **kwargs):\n"
+                     "    if not isinstance(arr, ArrayLike):\n        raise TypeError('not arraylike')\n"
+                     "    return jnp.asarray(arr, **kwargs)\n", "array conversion", guards=False, kwn=("dtype",))
 
 
 ARRAY_ONLY_FILTERS = {"equinox.is_array", "equinox.is_inexact_array", "equinox.is_inexact_array_like"}
